@@ -1116,9 +1116,15 @@ func (h *NtfnsHandler) asyncImport(walletId string) (finish bool, err error) {
 
 		return h.walletMgr.syncStore.PutWalletStatus(dbtx, ws)
 	})
+	evicted := h.walletMgr.txStore.TakeEvicted()
 	if err != nil {
 		return false, err
 	}
+	h.memMtx.Lock()
+	for i := range evicted {
+		delete(h.mempool, evicted[i])
+	}
+	h.memMtx.Unlock()
 
 	// update mem pol
 	for height, added := range heightAdded {
@@ -1293,8 +1299,14 @@ func (h *NtfnsHandler) processConnectedBlock(newBlock *wire.MsgBlock) error {
 		}
 		return err
 	})
+	// pending transactions that lost to a confirmed rival are not known any
+	// more: announced again (after a reorg that drops the rival) they are new
+	evicted := h.walletMgr.txStore.TakeEvicted()
 	if err == nil {
 		h.memMtx.Lock()
+		for i := range evicted {
+			delete(h.mempool, evicted[i])
+		}
 		// process rollback
 		for height := range rollbackBlock {
 			if blk, ok := h.expiredMempool[height]; ok {
